@@ -44,6 +44,8 @@ def namespace():
         s = a[0]
         if s is None:
             raise I.exc('TypeError', 'MolFromSmiles(None)')
+        if isinstance(s, Obj):
+            raise I.exc('TypeError', 'MolFromSmiles() takes text, not a molecule object')        # Boost.Python ArgumentError is a TypeError
         return mol(MolFromSmilesId(z3_of(s)))
     addhs = Builtin('Chem.AddHs', lambda I, a, k: mol(AddHsId(a[0].fields['mid'])))
     rdmolops = Namespace('rdmolops', {'AddHs': addhs})
